@@ -100,3 +100,19 @@ def budgeted(fn, budget, *a, **kw):
     if isinstance(v, JaqalError):
         return ("jaqal", type(v).__name__, str(v), steps)
     return ("exc", type(v).__name__, str(v)[:300], steps)
+
+
+_MON_ALL = None
+
+
+def step_monitor_all():
+    """Step monitor counting LINE events in every jaqalpaq module (C16)."""
+    global _MON_ALL
+    if _MON_ALL is None:
+        import sys as _sys
+
+        from . import monitors
+
+        _MON_ALL = monitors.StepMonitor(files=None, tool_id=_sys.monitoring.COVERAGE_ID)
+        _MON_ALL.start(lines=True)
+    return _MON_ALL
